@@ -150,7 +150,7 @@ def append (env : Env) (v other : Vec) : M (Out Unit × Vec) :=
     | .ok (other, _) => .ok (⟨v, .panic false, []⟩, other)
   | some v =>
     -- `ptr::copy_nonoverlapping(src, dst, n); owned_slice.take_owned_slice(); self.inc_len(n)`
-    match (other.slots.take n).mapM (fun s => match s with | .init id => some id | .hole => none) with
+    match (other.slots.take n).mapM Slot.id? with
     | none => .error (.readHole 0)
     | some ids =>
       if v.len + n > v.cap then .error (.outOfBounds (v.len + n))
